@@ -71,7 +71,9 @@ func cliRecord(r *rand.Rand, L int, iupac bool) (seqio.GenBank, []byte) {
 	if r.Intn(2) == 0 {
 		tab = append(tab, gts.Feature{Key: "source", Loc: gts.Range(0, L), Props: gts.Props{{"label", "src"}}})
 	}
-	gb := seqio.GenBank{Fields: seqio.GenBankFields{LocusName: "CLI", Molecule: gts.DNA, Topology: gts.Linear, Division: "SYN",
+	mol := []gts.Molecule{gts.DNA, gts.DNA, gts.RNA, gts.SingleStrandDNA, gts.DoubleStrandDNA}[r.Intn(5)]
+	topo := []gts.Topology{gts.Linear, gts.Circular}[r.Intn(2)]
+	gb := seqio.GenBank{Fields: seqio.GenBankFields{LocusName: "CLI", Molecule: mol, Topology: topo, Division: "SYN",
 		Date: seqio.Date{Year: 2022, Month: 5, Day: 6}, Definition: "cli layer", Accession: "CLI1", Version: "CLI1.1",
 		Source: seqio.Organism{Species: "synthetic construct", Name: "synthetic construct"}},
 		Table: gen.SortedTable(tab), Origin: seqio.NewOrigin(b)}
@@ -255,7 +257,7 @@ func cliSearch(c *fw.Ctx) {
 	defer os.RemoveAll(env.Root)
 	r := c.Rng
 	kdev := c.KFEnabled("match-k-row")
-	N := c.Pick(40, 600)
+	N := c.Pick(60, 800)
 	for it := 0; it < N; it++ {
 		c.NextOwn()
 		seed := r.Int63()
@@ -263,25 +265,79 @@ func cliSearch(c *fw.Ctx) {
 			continue
 		}
 		rr := rand.New(rand.NewSource(seed))
-		L := 30 + rr.Intn(50)
-		gb, seq := cliRecord(rr, L, true)
+		// one or two input records; every third case is RNA (u in the record).
+		rna := it%3 == 2
+		var gbs []seqio.GenBank
+		var seqs [][]byte
+		for n := 1 + (it/2)%2; n > 0; n-- {
+			L := 30 + rr.Intn(50)
+			gb, seq := cliRecord(rr, L, true)
+			if rna {
+				seq = bytes.ReplaceAll(seq, []byte("t"), []byte("u"))
+				gb.Origin = seqio.NewOrigin(seq)
+				gb.Fields.Molecule = gts.RNA
+			}
+			gb.Fields.LocusName = fmt.Sprintf("CLI%d", len(gbs))
+			gbs = append(gbs, gb)
+			seqs = append(seqs, seq)
+		}
 		qa := "acgtn"
-		if rr.Intn(3) == 0 {
+		switch rr.Intn(4) {
+		case 0:
 			qa = "acgtryn"
+		case 1:
+			qa = "acgun"
 		}
-		q := make([]byte, 2+rr.Intn(3))
-		for i := range q {
-			q[i] = qa[rr.Intn(len(qa))]
-		}
-		if rr.Intn(2) == 0 {
-			// take the query from the sequence so there is at least one hit.
-			a := rr.Intn(L - len(q))
-			copy(q, seq[a:a+len(q)])
+		// 1..3 queries; more than one (or a coin flip) go through a query
+		// file, and one of them may be longer than a record.
+		nq := 1 + rr.Intn(3)
+		var queries [][]byte
+		for i := 0; i < nq; i++ {
+			q := make([]byte, 2+rr.Intn(3))
+			for j := range q {
+				q[j] = qa[rr.Intn(len(qa))]
+			}
+			src := seqs[rr.Intn(len(seqs))]
+			if rr.Intn(2) == 0 {
+				// take the query from a record so there is at least one hit.
+				a := rr.Intn(len(src) - len(q))
+				copy(q, src[a:a+len(q)])
+			}
+			if nq > 1 && i < nq-1 && rr.Intn(4) == 0 {
+				// longer than the shortest record: no hit there, the later
+				// queries must still be searched.
+				short := seqs[0]
+				for _, sq := range seqs {
+					if len(sq) < len(short) {
+						short = sq
+					}
+				}
+				q = append(append([]byte{}, short...), q...)
+				c.Bucket("cli:search query longer than a record")
+			}
+			queries = append(queries, q)
 		}
 		exact := rr.Intn(3) == 0
 		nocomp := rr.Intn(3) == 0
 		key := "misc_feature"
-		args := []string{"search", "@" + string(q)}
+		qarg := "@" + string(queries[0])
+		if nq > 1 || rr.Intn(3) == 0 {
+			var fa bytes.Buffer
+			for i, q := range queries {
+				fmt.Fprintf(&fa, ">q%d\n%s\n", i, q)
+			}
+			qarg = env.File(fmt.Sprintf("queries-%d.fasta", it))
+			os.MkdirAll(filepath.Dir(qarg), 0755)
+			if err := os.WriteFile(qarg, fa.Bytes(), 0644); err != nil {
+				c.Inconclusive("cannot write the query file: " + err.Error())
+				return
+			}
+			c.Bucket("cli:search query file")
+			if nq > 1 {
+				c.Bucket("cli:search several queries")
+			}
+		}
+		args := []string{"search", qarg}
 		if exact {
 			args = append(args, "-e")
 		}
@@ -293,7 +349,11 @@ func cliSearch(c *fw.Ctx) {
 			args = append(args, "-k", key)
 		}
 		args = append(args, "-q", "label=hit")
-		enc := fmt.Sprintf("cli: gts %s  seq=%q", strings.Join(args, " "), seq)
+		var stdin bytes.Buffer
+		for _, gb := range gbs {
+			stdin.WriteString(gb.String())
+		}
+		enc := fmt.Sprintf("cli: gts %s  queries=%q seqs=%q", strings.Join(args[2:], " "), queries, seqs)
 		c.Begin(enc)
 		c.Count(enc, true)
 		c.Bucket("cli:search")
@@ -303,59 +363,74 @@ func cliSearch(c *fw.Ctx) {
 		if nocomp {
 			c.Bucket("cli:search --no-complement")
 		}
-		// sequence letters outside the query n don't-care do not occur (IUPAC only).
-		find := func(s []byte) [][2]int {
-			if exact {
-				var out [][2]int
-				ls, lq := bytes.ToLower(s), bytes.ToLower(q)
-				for i := 0; i+len(lq) <= len(ls); i++ {
-					if bytes.Equal(ls[i:i+len(lq)], lq) {
-						out = append(out, [2]int{i, i + len(lq)})
-					}
-				}
-				return out
-			}
-			return c18Scan(s, q, kdev, false)
+		if rna {
+			c.Bucket("cli:search RNA record")
 		}
-		want := map[string]int{}
-		for _, m := range find(seq) {
-			want[gts.Range(m[0], m[1]).String()]++
+		if len(gbs) > 1 {
+			c.Bucket("cli:search stream")
 		}
-		if !nocomp {
-			rc := make([]byte, L)
-			for i := range seq {
-				rc[L-1-i] = model.ComplementByte(seq[i])
-			}
-			for _, m := range find(rc) {
-				want[gts.Range(L-m[1], L-m[0]).Complement().String()]++
-			}
+		outs, ok := runCLI(c, env, "cli:search", enc, args, stdin.Bytes())
+		if qarg[0] != '@' {
+			os.Remove(qarg)
 		}
-		outs, ok := runCLI(c, env, "cli:search", enc, args, []byte(gb.String()))
 		if !ok {
 			continue
 		}
-		if len(outs) != 1 {
-			c.Violate("cli:search:record-count", enc, "1", fmt.Sprint(len(outs)))
+		if len(outs) != len(gbs) {
+			c.Violate("cli:search:record-count", enc, fmt.Sprint(len(gbs)), fmt.Sprint(len(outs)))
 			continue
 		}
-		got := map[string]int{}
-		orig := 0
-		for _, f := range outs[0].Features() {
-			if gen.Label(f) == "hit" {
-				if f.Key != key {
-					c.Violate("cli:search:feature-key", enc, key, f.Key)
+		for ri, seq := range seqs {
+			L := len(seq)
+			// sequence letters outside the query n don't-care do not occur (IUPAC only).
+			want := map[string]int{}
+			for _, q := range queries {
+				q := q
+				find := func(s []byte) [][2]int {
+					if exact {
+						var out [][2]int
+						ls, lq := bytes.ToLower(s), bytes.ToLower(q)
+						for i := 0; i+len(lq) <= len(ls); i++ {
+							if bytes.Equal(ls[i:i+len(lq)], lq) {
+								out = append(out, [2]int{i, i + len(lq)})
+							}
+						}
+						return out
+					}
+					return c18Scan(s, q, kdev, false)
 				}
-				got[f.Loc.String()]++
-			} else {
-				orig++
+				for _, m := range find(seq) {
+					want[gts.Range(m[0], m[1]).String()]++
+				}
+				if !nocomp {
+					rc := make([]byte, L)
+					for i := range seq {
+						rc[L-1-i] = model.ComplementByte(seq[i])
+					}
+					for _, m := range find(rc) {
+						want[gts.Range(L-m[1], L-m[0]).Complement().String()]++
+					}
+				}
 			}
-		}
-		if orig != len(gb.Table) {
-			c.Violate("cli:search:original-features-changed", enc, fmt.Sprint(len(gb.Table)), fmt.Sprint(orig))
-			continue
-		}
-		if fmt.Sprint(sortedCounts(got)) != fmt.Sprint(sortedCounts(want)) {
-			c.Violate("cli:search:hits", enc, fmt.Sprint(sortedCounts(want)), fmt.Sprint(sortedCounts(got)))
+			got := map[string]int{}
+			orig := 0
+			for _, f := range outs[ri].Features() {
+				if gen.Label(f) == "hit" {
+					if f.Key != key {
+						c.Violate("cli:search:feature-key", enc, key, f.Key)
+					}
+					got[f.Loc.String()]++
+				} else {
+					orig++
+				}
+			}
+			if orig != len(gbs[ri].Table) {
+				c.Violate("cli:search:original-features-changed", enc, fmt.Sprint(len(gbs[ri].Table)), fmt.Sprint(orig))
+				continue
+			}
+			if fmt.Sprint(sortedCounts(got)) != fmt.Sprint(sortedCounts(want)) {
+				c.Violate("cli:search:hits", enc, fmt.Sprintf("record %d: %v", ri+1, sortedCounts(want)), fmt.Sprint(sortedCounts(got)))
+			}
 		}
 	}
 }
@@ -426,7 +501,7 @@ func cliReverseComplement(c *fw.Ctx) {
 					want[i] = model.ComplementByte(b)
 				}
 			}
-			if !bytes.Equal(outs[k].Bytes(), want) {
+			if !bytes.Equal(normU(outs[k].Bytes()), normU(want)) {
 				c.Violate("cli:"+cmd+":residues", enc, string(want), string(outs[k].Bytes()))
 				break
 			}
@@ -501,15 +576,52 @@ func cliRepair(c *fw.Ctx) {
 			s := rr.Intn(L - 1)
 			e := s + 1 + rr.Intn(L-s)
 			pt := gts.Partial{Partial5: rr.Intn(5) == 0, Partial3: rr.Intn(5) == 0}
-			tab = append(tab, gts.Feature{Key: []string{"gene", "CDS", "exon"}[rr.Intn(3)], Loc: gts.PartialRange(s, e, pt), Props: gts.Props{{"label", fmt.Sprintf("h%d", i)}}})
+			p := gts.Props{{"label", fmt.Sprintf("h%d", i)}}
+			if rr.Intn(3) == 0 {
+				// a value-less qualifier that no built-in list knows.
+				p.Add([]string{"curated", "zt_flag"}[rr.Intn(2)], "")
+				c.Bucket("cli:repair value-less unlisted qualifier")
+			}
+			if rr.Intn(3) == 0 {
+				p.Add("note", []string{"alpha", "beta gamma", "x=1; y"}[rr.Intn(3)])
+			}
+			if rr.Intn(2) == 0 {
+				// confined to one half, so that cuts between features exist.
+				s = rr.Intn(L/3 + 1)
+				e = s + 1 + rr.Intn(L/3)
+			}
+			tab = append(tab, gts.Feature{Key: []string{"gene", "CDS", "exon"}[rr.Intn(3)], Loc: gts.PartialRange(s, e, pt), Props: p})
+		}
+		if rr.Intn(3) > 0 {
+			tab = append(tab, gts.Feature{Key: "source", Loc: gts.Range(0, L), Props: gts.Props{{"label", "src"}, {"organism", "synthetic construct"}, {"mol_type", "other DNA"}}})
+			c.Bucket("cli:repair source feature")
 		}
 		gb := seqio.GenBank{Fields: seqio.GenBankFields{LocusName: "REP", Molecule: gts.DNA, Topology: gts.Linear, Division: "SYN",
 			Date: seqio.Date{Year: 2022, Month: 5, Day: 6}, Definition: "repair", Accession: "REP1", Version: "REP1.1"},
 			Table: gen.SortedTable(tab), Origin: seqio.NewOrigin(b)}
 		cut := 1 + rr.Intn(L-1)
+		if rr.Intn(2) == 0 {
+			// prefer a cut that falls inside no feature but the source.
+			var free []int
+			for p := 1; p < L; p++ {
+				in := false
+				for _, f := range tab {
+					if rg, ok := f.Loc.(gts.Ranged); ok && f.Key != "source" && rg.Start < p && p < rg.End {
+						in = true
+					}
+				}
+				if !in {
+					free = append(free, p)
+				}
+			}
+			if len(free) > 0 {
+				cut = free[rr.Intn(len(free))]
+				c.Bucket("cli:repair cut between features")
+			}
+		}
 		enc := fmt.Sprintf("cli: gts split %d | gts join | gts repair  seq=%q F=[", cut+1, b)
 		for _, f := range gb.Table {
-			enc += fmt.Sprintf("%s %s %s;", f.Key, gen.Label(f), model.SafeString(f.Loc))
+			enc += fmt.Sprintf("%s %s %s %d qualifiers;", f.Key, gen.Label(f), model.SafeString(f.Loc), len(f.Props))
 		}
 		enc += "]"
 		c.Begin(enc)
@@ -523,7 +635,12 @@ func cliRepair(c *fw.Ctx) {
 			}
 			return res.Stdout, true
 		}
-		s1, ok := run([]string{"split", fmt.Sprint(cut + 1)}, []byte(gb.String()))
+		// the value-less qualifiers are spelled as in a flat file (/curated).
+		input := gb.String()
+		for _, nm := range []string{"curated", "zt_flag"} {
+			input = strings.ReplaceAll(input, "/"+nm+"=\"\"\n", "/"+nm+"\n")
+		}
+		s1, ok := run([]string{"split", fmt.Sprint(cut + 1)}, []byte(input))
 		if !ok {
 			continue
 		}
@@ -546,14 +663,146 @@ func cliRepair(c *fw.Ctx) {
 		}
 		want := map[string]int{}
 		for _, f := range gb.Table {
-			want[fmt.Sprintf("%s %s %s", f.Key, gen.Label(f), f.Loc)]++
+			want[fmt.Sprintf("%s %s %q", f.Key, f.Loc, f.Props)]++
 		}
 		got := map[string]int{}
 		for _, f := range outs[0].Features() {
-			got[fmt.Sprintf("%s %s %s", f.Key, gen.Label(f), f.Loc)]++
+			got[fmt.Sprintf("%s %s %q", f.Key, f.Loc, f.Props)]++
 		}
 		if fmt.Sprint(sortedCounts(got)) != fmt.Sprint(sortedCounts(want)) {
 			c.Violate("cli:repair-pipeline:table-not-restored", enc, fmt.Sprint(sortedCounts(want)), fmt.Sprint(sortedCounts(got)))
+		}
+	}
+}
+
+// ---- C17: gts <cmd> -F fasta ----
+
+// cliFasta runs pass-through and residue-wise commands with -F fasta on
+// streams of GenBank records (lengths on the 70-column boundaries, a CONTIG-
+// only record now and then) and judges the text: one FASTA record per input
+// record, description = VERSION + " " + DEFINITION, residues as the command
+// implies, exact 70-column layout; the FASTA text fed back through
+// `gts clear -F fasta` comes out byte-identical.
+func cliFasta(c *fw.Ctx) {
+	env := cliLayerEnv(c, "c17")
+	if env == nil {
+		return
+	}
+	defer os.RemoveAll(env.Root)
+	r := c.Rng
+	cmds := [][]string{{"clear"}, {"reverse"}, {"complement"}, {"select", "gene"}, {"sort"}, {"clear"}}
+	lens := []int{1, 69, 70, 71, 139, 140, 141, 210}
+	N := c.Pick(48, 600)
+	for it := 0; it < N; it++ {
+		c.NextOwn()
+		seed := r.Int63()
+		if c.Replaying() && c.Seq() != c.ReplaySeq {
+			continue
+		}
+		rr := rand.New(rand.NewSource(seed))
+		cmd := cmds[it%len(cmds)]
+		k := 1 + rr.Intn(3)
+		if cmd[0] == "sort" {
+			k = 1 // the order of a sorted stream is not this property's subject
+		}
+		var stdin bytes.Buffer
+		var wantD []string
+		var wantR [][]byte
+		var encs []string
+		for i := 0; i < k; i++ {
+			L := lens[rr.Intn(len(lens))]
+			if rr.Intn(3) == 0 {
+				L = 1 + rr.Intn(300)
+			}
+			gb, seq := cliRecord(rr, L, true)
+			gb.Fields.Version = fmt.Sprintf("CLI%d.%d", i, 1+rr.Intn(9))
+			gb.Fields.Definition = []string{"cli layer", "wrapped over\ntwo lines", "has > inside", "d"}[rr.Intn(4)]
+			if cmd[0] == "clear" && rr.Intn(5) == 0 {
+				// CONTIG-only record: no ORIGIN block, no residues.
+				gb.Table = nil
+				gb.Origin = seqio.NewOrigin(nil)
+				gb.Fields.Contig = seqio.Contig{Accession: "NC_000913.3", Region: gts.Segment{0, L}}
+				seq = []byte{}
+				c.Bucket("cli:fasta CONTIG-only record")
+			}
+			stdin.WriteString(gb.String())
+			wantD = append(wantD, gb.Fields.Version+" "+c17Flat(gb.Fields.Definition))
+			want := append([]byte(nil), seq...)
+			switch cmd[0] {
+			case "reverse":
+				for a, b := 0, len(want)-1; a < b; a, b = a+1, b-1 {
+					want[a], want[b] = want[b], want[a]
+				}
+			case "complement":
+				for j := range want {
+					want[j] = model.ComplementByte(want[j])
+				}
+			}
+			wantR = append(wantR, want)
+			encs = append(encs, fmt.Sprintf("{%d residues ver=%q def=%q}", len(seq), gb.Fields.Version, gb.Fields.Definition))
+			if len(seq)%70 == 0 && len(seq) > 0 {
+				c.Bucket("cli:fasta len%70=0")
+			}
+		}
+		args := append(append([]string{}, cmd...), "-F", "fasta")
+		enc := fmt.Sprintf("cli: gts %s  records=%s seed=%d", strings.Join(args, " "), strings.Join(encs, " "), seed)
+		c.Begin(enc)
+		c.Count(enc, true)
+		c.Bucket("cli:fasta " + cmd[0])
+		if k > 1 {
+			c.Bucket("cli:fasta stream")
+		}
+		res := env.Run(append(append([]string{}, args...), "--no-cache"), stdin.Bytes(), nil, 60*time.Second)
+		if res.TimedOut || res.Exit != 0 {
+			c.Violate("cli:fasta:exit-nonzero", enc, "exit 0", fmt.Sprintf("exit %d timeout=%v: %s", res.Exit, res.TimedOut, clipS(string(res.Stderr), 600)))
+			continue
+		}
+		want := ""
+		for i := range wantD {
+			want += model.FastaRecord(wantD[i], wantR[i])
+		}
+		text := string(res.Stdout)
+		if text != want {
+			// the tolerated layout variants (blank line after an exact multiple
+			// of 70, empty line for zero residues) are accepted record by record.
+			got, err, bad := c17read(text, k+3)
+			same := err == nil && bad == "" && len(got) == k
+			for i := 0; same && i < k; i++ {
+				same = got[i].desc == wantD[i] && bytes.Equal(got[i].data, wantR[i])
+			}
+			ok := same
+			if same {
+				rest := text
+				for i := 0; i < k && ok; i++ {
+					// cut the text at the next header line.
+					end := strings.Index(rest[1:], "\n>")
+					piece := rest
+					if end >= 0 {
+						piece, rest = rest[:end+2], rest[end+2:]
+					} else {
+						rest = ""
+					}
+					ok, _ = model.FastaLayoutOK(wantD[i], wantR[i], piece)
+				}
+			}
+			if !ok {
+				c.Violate("cli:fasta:output", enc, clipS(want, 1500), clipS(text, 1500))
+				continue
+			}
+		}
+		// FASTA in, FASTA out.
+		res2 := env.Run([]string{"clear", "-F", "fasta", "--no-cache"}, res.Stdout, nil, 60*time.Second)
+		if res2.TimedOut || res2.Exit != 0 {
+			c.Violate("cli:fasta:second-pass-exit-nonzero", enc, "exit 0", fmt.Sprintf("exit %d: %s", res2.Exit, clipS(string(res2.Stderr), 600)))
+			continue
+		}
+		got2, err2, bad2 := c17read(string(res2.Stdout), k+3)
+		same := err2 == nil && bad2 == "" && len(got2) == k
+		for i := 0; same && i < k; i++ {
+			same = got2[i].desc == wantD[i] && bytes.Equal(got2[i].data, wantR[i])
+		}
+		if !same {
+			c.Violate("cli:fasta:second-pass", enc, clipS(want, 1500), clipS(string(res2.Stdout), 1500))
 		}
 	}
 }
